@@ -176,7 +176,9 @@ ANN_FORMS = {
     'free': [';m=', 'V:m'],
     'q_free': [';q=', 'N:q', ';lbl=', 'V:lbl'],
 }
-NUM_FORMS = {'d': 'D', 'sd': 'SD', 'd.d': 'D.D', 'sd.d': 'SD.D', 'dd': 'DD', '.d': '.D', 'sdd.dd': 'SDD.DD'}
+# numeric spellings: 'S' sign hole (+/-), 'D' digit hole, every other character literal
+NUM_FORMS = {'d': 'D', 'sd': 'SD', 'd.d': 'D.D', 'sd.d': 'SD.D', 'dd': 'DD', '.d': '.D', 'd.': 'D.',
+             'sdd.dd': 'SDD.DD', 'ded': 'DeD', 'de-d': 'De-D', 'd.dE+d': 'D.DE+D', 'sdesd': 'SDeSD'}
 
 
 def build_number(tag, form):
@@ -187,34 +189,62 @@ def build_number(tag, form):
         elif c == 'D':
             items.append(sym_char("%s_d%d" % (tag, k), lo=48, hi=57))
         else:
-            items.append('.')
+            items.append(c)
     return items
 
 
 def number_value(s, form):
     """exact value of a rendered number (string concrete or symbolic) of a known form"""
     items = list(SymStr.lift(s)._chs)
-    sign = 1
-    mant = 0
-    nfrac = 0
-    seen_dot = False
-    for c, it in zip(NUM_FORMS[form], items):
-        if c == 'S':
-            if isinstance(it, str):
-                sign = -1 if it == '-' else 1
-            else:
-                sign = SymInt.mk(z3.If(it == 45, -1, 1))
+    tmpl = NUM_FORMS[form]
+
+    def sign_of(it):
+        if isinstance(it, str):
+            return -1 if it == '-' else 1
+        return SymInt.mk(z3.If(it == 45, -1, 1))
+
+    def digit(it):
+        return (ord(it) - 48) if isinstance(it, str) else SymInt.mk(it - 48)
+    epos = [k for k, c in enumerate(tmpl) if c in 'eE']
+    mt, mi = (tmpl, items) if not epos else (tmpl[:epos[0]], items[:epos[0]])
+    sign, mant, nfrac, seen_dot = 1, 0, 0, False
+    for c, it in zip(mt, mi):
+        if c == 'S' or c in '+-':
+            sign = sign_of(it)
         elif c == '.':
             seen_dot = True
         else:
-            d = (ord(it) - 48) if isinstance(it, str) else SymInt.mk(it - 48)
-            mant = mant * 10 + d
+            mant = mant * 10 + digit(it)
             if seen_dot:
                 nfrac += 1
     val = sign * mant
-    if isinstance(val, int):
-        return fractions.Fraction(val, 10 ** nfrac)
-    return SymReal.mk(z3.ToReal(val.e) / (10 ** nfrac))
+
+    def as_real(v, scale_num=1, scale_den=1):
+        if isinstance(v, int):
+            return fractions.Fraction(v * scale_num, scale_den)
+        return SymReal.mk(z3.ToReal(v.e) * scale_num / scale_den)
+    if not epos:
+        return as_real(val, 1, 10 ** nfrac)
+    et, ei = tmpl[epos[0] + 1:], items[epos[0] + 1:]
+    esign, edig = 1, None
+    for c, it in zip(et, ei):
+        if c == 'S' or c in '+-':
+            esign = sign_of(it)
+        else:
+            edig = digit(it) if edig is None else edig * 10 + digit(it)
+    # case split over the (single digit) exponent and its sign: value = mantissa * 10^(+-e)
+    result = None
+    for sg in (1, -1):
+        for ev in range(0, 10):
+            num, den = (10 ** ev, 10 ** nfrac) if sg > 0 else (1, 10 ** (nfrac + ev))
+            v = as_real(val, num, den)
+            cond = symx.band(esign == sg, edig == ev)
+            if cond is True:
+                return v
+            if cond is False:
+                continue
+            result = v if result is None else symx.ite(cond, v, result)
+    return result
 
 
 # ---- holes ---------------------------------------------------------------
